@@ -278,6 +278,11 @@ func runC03a(c clCase, o *vfutil.Obs) *vfutil.Failure {
 					}
 					return vfutil.Failf("C03/delivered-wrong/"+cls, "step %d: reader started at %d, next %d, hw %d, newest %d: ReadMessage delivered offset %d", x.step, rd.start, rd.next, x.m.HW, x.m.newest(), off), true
 				}
+				if !expectRO && pkgErrors.Cause(err) == ErrCommitLogReadonly {
+					// the reader was told the log has ended although uncommitted
+					// messages (or a writable log) remain: it would never deliver them
+					return vfutil.Failf("C03/ended-instead-of-waiting", "step %d: reader started at %d, next %d, hw %d, newest %d, readonly %v: ReadMessage reported the end of a read-only log", x.step, rd.start, rd.next, x.m.HW, x.m.newest(), x.m.Readonly), true
+				}
 				if expectRO && pkgErrors.Cause(err) != ErrCommitLogReadonly {
 					return vfutil.Failf("C03/readonly-end", "step %d: reader at the end of a read-only log got %v, want ErrCommitLogReadonly", x.step, err), true
 				}
